@@ -373,6 +373,8 @@ pub fn gen_generic(r: &mut Rng, max_rows: usize) -> Catalog {
 pub struct DpWorld {
     pub cat: Catalog,
     pub hash_pu: bool,
+    /// every protected table has a per-row weight column `w` declared in the privacy unit
+    pub weighted: bool,
     /// tables without privacy unit (public)
     pub public: Vec<String>,
     pub row_privacy: Vec<String>,
@@ -399,7 +401,13 @@ impl DpWorld {
             ("orders", vec![("user_id", "users", "id")], "id"),
             ("items", vec![("order_id", "orders", "id"), ("user_id", "users", "id")], "id"),
             ("events", vec![], PrivacyUnit::privacy_unit_row()),
+            // a direct, NON-unique privacy-unit column: several rows (and weights) per unit
+            ("visits", vec![], "uid"),
         ];
+        if self.weighted {
+            let weighted: Vec<(&str, Vec<(&str, &str, &str)>, &str, &str)> = paths.into_iter().map(|(t, p, id)| (t, p, id, "w")).collect();
+            return PrivacyUnit::from((weighted, self.hash_pu));
+        }
         PrivacyUnit::from((paths, self.hash_pu))
     }
 
@@ -415,6 +423,7 @@ impl DpWorld {
                 let idc = users.col("id")?;
                 users.rows.iter().find(|u| &u[idc] == uid).map(|u| u[idc].to_string())
             }
+            "visits" => Some(row[t.col("uid")?].to_string()),
             "items" => {
                 let oid = &row[t.col("order_id")?];
                 let orders = self.cat.table("orders")?;
@@ -429,13 +438,24 @@ impl DpWorld {
     pub fn units(&self) -> Vec<String> {
         let users = self.cat.table("users").unwrap();
         let idc = users.col("id").unwrap();
-        users.rows.iter().map(|u| u[idc].to_string()).collect()
+        let mut units: Vec<String> = users.rows.iter().map(|u| u[idc].to_string()).collect();
+        if let Some(v) = self.cat.table("visits") {
+            if let Some(ui) = v.col("uid") {
+                for row in v.rows.iter() {
+                    let u = row[ui].to_string();
+                    if !units.contains(&u) {
+                        units.push(u);
+                    }
+                }
+            }
+        }
+        units
     }
 
     /// The database with every protected row not owned by `unit` deleted (public tables untouched)
     pub fn restricted_to(&self, unit: &str) -> DpWorld {
         let mut w = self.clone();
-        for name in ["users", "orders", "items"] {
+        for name in ["users", "orders", "items", "visits"] {
             let keep: Vec<Vec<Value>> = self
                 .cat
                 .table(name)
@@ -454,7 +474,7 @@ impl DpWorld {
     /// The neighbouring database: all protected rows owned by `unit` removed
     pub fn without(&self, unit: &str) -> DpWorld {
         let mut w = self.clone();
-        for name in ["users", "orders", "items"] {
+        for name in ["users", "orders", "items", "visits"] {
             let keep: Vec<Vec<Value>> = self
                 .cat
                 .table(name)
@@ -520,6 +540,22 @@ pub fn gen_dp_world(r: &mut Rng, o: &DpWorldOptions) -> DpWorld {
         ColDef::new("x", DataType::float_interval(-10.0, 10.0)),
         ColDef::new("y", nullable(r, DataType::integer_interval(0, 20))),
     ];
+    let visits_cols = vec![
+        ColDef::new("uid", DataType::integer_interval(1, 1000)),
+        ColDef::new(
+            "city",
+            if private_city { DataType::text_interval("A".to_string(), "z".to_string()) } else { DataType::text_values(cities.clone()) },
+        ),
+        ColDef::new("x", nullable(r, DataType::float_interval(0.0, 50.0))),
+    ];
+    // one world in three declares a per-row weight (a unit's rows carry different weights)
+    let weighted = r.chance(1, 3);
+    let (mut users_cols, mut orders_cols, mut items_cols, mut events_cols, mut visits_cols) = (users_cols, orders_cols, items_cols, events_cols, visits_cols);
+    if weighted {
+        for cols in [&mut users_cols, &mut orders_cols, &mut items_cols, &mut events_cols, &mut visits_cols] {
+            cols.push(ColDef::new("w", DataType::float_values([0.5, 1.0, 2.0, 3.0])));
+        }
+    }
     // in half of the worlds the Relation name of a table differs from its key in the hierarchy
     let mut cat = Catalog { tables: vec![], rel_prefix: if r.bool() { "tb_".to_string() } else { String::new() } };
     // users
@@ -613,5 +649,32 @@ pub fn gen_dp_world(r: &mut Rng, o: &DpWorldOptions) -> DpWorld {
     let mut events = TableDef { name: "events".into(), cols: events_cols, size: (0, 10000), rows: vec![] };
     events.rows = gen_rows(r, &cat, &events.cols.clone(), o.n_events);
     cat.tables.push(events);
-    DpWorld { cat, hash_pu: r.bool(), public: vec!["shops".into()], row_privacy: vec!["events".into()] }
+    // visits: 0..4 rows per user id (and sometimes for an id that has no row in users)
+    let mut visits = TableDef { name: "visits".into(), cols: visits_cols, size: (0, 100000), rows: vec![] };
+    {
+        let mut rows = vec![];
+        let n_ids = o.n_users + if r.chance(1, 4) { 1 } else { 0 };
+        for u in 0..n_ids {
+            let k = match r.below(4) {
+                0 => 0,
+                1 => 1,
+                _ => 1 + r.usize(4),
+            };
+            for _ in 0..k {
+                let mut row = vec![Value::integer(u as i64 + 1)];
+                for c in visits.cols.iter().skip(1) {
+                    let v = if c.name == "city" && private_city {
+                        if r.chance(2, 3) { Value::text(r.pick(CITIES).to_string()) } else { Value::text(format!("V{}", r.below(50))) }
+                    } else {
+                        strip_some(&gen_value_in(r, &c.ty).unwrap_or_else(Value::none))
+                    };
+                    row.push(v);
+                }
+                rows.push(row);
+            }
+        }
+        visits.rows = rows;
+    }
+    cat.tables.push(visits);
+    DpWorld { cat, hash_pu: r.bool(), weighted, public: vec!["shops".into()], row_privacy: vec!["events".into()] }
 }
